@@ -380,18 +380,21 @@ CHECKS = {'C01': {'level': 'exploration',
  'C17': {'level': 'exploration',
          'rule': 'generated cases (16 run concurrently, each with its own collection and REAL background vacuum): cleanup interval in {1,5,20} ms; '
                  '2..12 rows drawn from {no TTL, TTL 0, short TTL 10-60 ms, long TTL >= 1 h, 2 s TTL extended by 1 h right away, long TTL re-set to '
-                 'a short one}; optionally a concurrent goroutine doing unrelated merges on ALL rows, inserts with TTL and deletes while the vacuum '
-                 'runs; optionally the same through snapshot->restore or through a stream replica, whose own vacuum must then behave identically and '
-                 "whose stored deadlines are compared bit-for-bit with the primary's. Oracle: safety (exact) at every sample and at the end - every "
-                 'row whose deadline is absent, zero or more than 1 s in the future is present; liveness (bounded) - every row whose deadline passed '
-                 'is gone within max(50 intervals, 10 s); rows within 1 s of their deadline are not judged; Row.TTL() of long/extended rows is '
-                 'within 2 s of the deadline. non-trivial = the case has both a row that expired and was removed and a surviving row observed over '
-                 '>= 12 cleanup intervals; distinct = the generated case',
+                 'a short one}; one case in eight first fills a whole 16K block with rows that never expire and then runs ONE slow transaction that '
+                 'reserves 30 offsets in the next block while the cleanup ticks (every offset must be handed out once, all rows must survive); one '
+                 'case in three has 2..6 goroutines extend one long-TTL row 25 times by 1 min each at once (the stored deadline must be the initial '
+                 'one plus ALL extensions, exactly); optionally a concurrent goroutine doing unrelated merges on ALL rows, inserts with TTL and '
+                 'deletes while the vacuum runs; optionally the same through snapshot->restore or through a stream replica, whose own vacuum must '
+                 "then behave identically and whose stored deadlines are compared bit-for-bit with the primary's. Oracle: safety (exact) at every "
+                 'sample and at the end - every row whose deadline is absent, zero or more than 1 s in the future is present; liveness (bounded) - '
+                 'every row whose deadline passed is gone within max(50 intervals, 10 s); rows within 1 s of their deadline are not judged; '
+                 'Row.TTL() of long/extended rows is within 2 s of the deadline. non-trivial = the case has both a row that expired and was removed '
+                 'and a surviving row observed over >= 12 cleanup intervals; distinct = the generated case',
          'assumptions': ['wall-clock property: margins (1 s safety guard band, 10 s liveness bound = >200x the expected latency) instead of a clock '
                          'hook; a run on a machine stalled for more than the margins would be inconclusive, never a violation of safety',
                          'timing is not reproducible bit-for-bit; the case (rows, TTLs, interval, mode) is'],
          'tests': [{'run': '^TestC17$',
-                    'checks': {'quick': 6, 'thorough': 120},
+                    'checks': {'quick': 30, 'thorough': 150},
                     'shards': {'quick': 1, 'thorough': 2},
                     'timeout': {'quick': 900, 'thorough': 3400}}]},
  'C18': {'level': 'exploration',
